@@ -297,7 +297,9 @@ func (e *concEngine) submit(r *rand.Rand, p, n int) {
 		rid = []string{"svc.nomatch.x", "other.res.1", "svc.res", "svc.tag.g1"}[r.Intn(4)]
 	}
 	s := e.newSub(p, n, kind, rid)
-	if e.cfg.Baton && !strings.HasPrefix(kind, "req:") {
+	if e.cfg.Baton {
+		// mutex-ordered submissions: With* calls are totally ordered by happens-before, and
+		// requests are put on the connection in one total order
 		e.submitMu.Lock()
 		defer e.submitMu.Unlock()
 		s.Global = atomic.AddInt64(&e.globalN, 1)
@@ -672,7 +674,13 @@ func (e *concEngine) checkExactlyOnce() {
 		byGroup := map[string][]*concSub{}
 		for _, s := range e.order {
 			if s.Global > 0 && !s.Parallel && s.Kind != "unmatched" {
-				byGroup[fmt.Sprintf("%d/%s", s.Cycle, s.Group)] = append(byGroup[fmt.Sprintf("%d/%s", s.Cycle, s.Group)], s)
+				// requests and With* calls travel on different channels: each is checked on its own
+				ch := "with"
+				if strings.HasPrefix(s.Kind, "req:") {
+					ch = "req"
+				}
+				k := fmt.Sprintf("%d/%s/%s", s.Cycle, s.Group, ch)
+				byGroup[k] = append(byGroup[k], s)
 			}
 		}
 		for g, ss := range byGroup {
